@@ -779,7 +779,7 @@ def run(chk):
     chk.rule = ("per artefact (scapy, wireshark, fibex, csv x {msb,msbreverse,lsb} x {',',';'}, canard x complete CLI option vectors "
                 "(xls/json Motorola notation, jsonNativeTypes, jsonExportAll, xlsValuesInSeperateLines); every fourth matrix of the other artefacts is "
                 "written again under a vector of options that belong to other outputs and must come out byte-identical): seeded matrices from matgen "
-                "(1..6 frames, lengths 1..64, standard and extended ids with unique id numbers, Intel/Motorola/mixed, signed/unsigned/"
+                "(1..6 frames, lengths 1..64, standard and extended ids with unique id numbers - every third matrix with edge-of-range identifiers: extended frames whose number fits 11 bits, 0, 0x7FF, 0x800, 2^29-1 -, Intel/Motorola/mixed, signed/unsigned/"
                 "float32/64, factors/offsets of up to 4 (csv: 6) and, in a separate stream, 9 significant digits, simple multiplexing in about "
                 "a third of the frames); every signal is one case: recorded numbers vs the matrix, tool-convention positions vs "
                 "layouts.bigpos, tool-convention value vs Frame.decode on 3 random payloads (selector forced for multiplexed groups). "
@@ -942,6 +942,40 @@ def run(chk):
                           dict(excerpt=(a[0] if isinstance(a[0], str) else a[0].decode("utf8", "replace"))[:600]))
             return None
 
+    # ---- identifiers at the edges of both formats.  matgen draws 29-bit identifiers uniformly, so an extended frame whose number would
+    # also fit a standard identifier (and the extreme values 0, 0x7FF, 0x800, 2^29-1) practically never occurs; every third matrix gets
+    # such identifiers.  The frame format is part of the frame identifier: number AND format recorded by the artefact must be the frame's.
+    EDGE_IDS = [(0, True), (1, True), (0x12, True), (0x7FE, True), (0x7FF, True), (0x800, True), (0x801, True), (2 ** 29 - 1, True), (2 ** 29 - 2, True),
+                (0, False), (1, False), (0x7FE, False), (0x7FF, False)]
+    edge_frames = set()
+
+    def gen(art, k):
+        db = matgen.gen_matrix(rng, C, **features(art, k))
+        edge_frames.clear()
+        if k % 3 == 2:
+            used = {f.arbitration_id.id for f in db.frames}          # id numbers stay unique across formats (envelope)
+            for f in db.frames:
+                if rng.random() < 0.7:
+                    cand = [(v, e) for v, e in EDGE_IDS if v not in used]
+                    if not cand:
+                        break
+                    v, e = rng.choice(cand)
+                    used.discard(f.arbitration_id.id)
+                    used.add(v)
+                    f.arbitration_id = C.ArbitrationId(v, e)
+                    edge_frames.add(id(f))
+        for f in db.frames:
+            a = f.arbitration_id
+            chk.count("ids:%s" % ("standard" if not a.extended else ("extended<=0x7FF" if a.id <= 0x7FF else "extended>0x7FF")))
+            if id(f) in edge_frames:
+                chk.count("ids:edge-of-range")
+                chk.case((art, "edge-id", a.id, bool(a.extended)), True)
+        return db
+
+    def K(fr, key):
+        """failure class of an identifier mismatch: a class of its own for the edge-of-range identifiers"""
+        return key + "-edge-id" if id(fr) in edge_frames else key
+
     # ---- the writer's notation options as a whole: canconvert hands EVERY writer the complete option vector (each option at its
     # CLI default or at what the user chose), so every artefact is also produced under vectors that set options documented for
     # another output mode.  The property is the same under every vector: the artefact's own convention is fixed by the target tool.
@@ -976,7 +1010,7 @@ def run(chk):
     # ============================================================ scapy
     for k in range(N):
         tie_on[0] = k < TIE_N
-        db = matgen.gen_matrix(rng, C, **features("scapy", k))
+        db = gen("scapy", k)
         data = writer("scapy", db)
         if data is None:
             continue
@@ -991,9 +1025,9 @@ def run(chk):
                 chk.violation("scapy-frame-missing", "no SignalPacket class for the frame", dict(frame=fr.name))
                 continue
             if cls["id"] != fr.arbitration_id.id:
-                chk.violation("scapy-id", "bind_layers identifier differs", dict(frame=fr.name), fr.arbitration_id.id, cls["id"])
+                chk.violation(K(fr, "scapy-id"), "bind_layers identifier differs", dict(frame=fr.name), fr.arbitration_id.id, cls["id"])
             if cls["ext"] != bool(fr.arbitration_id.extended):
-                chk.violation("scapy-extended-flag", "bind_layers extended flag differs", dict(frame=fr.name, id=hex(fr.arbitration_id.id)),
+                chk.violation(K(fr, "scapy-extended-flag"), "bind_layers extended flag differs", dict(frame=fr.name, id=hex(fr.arbitration_id.id)),
                               bool(fr.arbitration_id.extended), cls["ext"])
             recs = {}
             for f in cls["fields"]:
@@ -1044,7 +1078,7 @@ def run(chk):
     # ============================================================ wireshark
     for k in range(N):
         tie_on[0] = k < TIE_N
-        db = matgen.gen_matrix(rng, C, **features("wireshark", k))
+        db = gen("wireshark", k)
         data = writer("wireshark", db)
         if data is None:
             continue
@@ -1063,7 +1097,7 @@ def run(chk):
                 continue
             blk = blocks[0]
             if blk["id"] != fr.arbitration_id.id:
-                chk.violation("wireshark-id", "can_id differs", dict(frame=fr.name), fr.arbitration_id.id, blk["id"])
+                chk.violation(K(fr, "wireshark-id"), "can_id differs", dict(frame=fr.name), fr.arbitration_id.id, blk["id"])
             mux = fr.get_multiplexer if fr.is_multiplexed else None
             for extra in set(blk["signals"]) - {s.name for s in fr.signals}:
                 chk.violation("wireshark-signal-extra", "field without a signal", dict(frame=fr.name, signal=extra))
@@ -1125,7 +1159,7 @@ def run(chk):
                 "A_INT32": (1, 32), "A_INT64": (1, 64), "A_FLOAT32": (2, 32), "A_FLOAT64": (2, 64)}
     for k in range(N):
         tie_on[0] = k < TIE_N
-        db = matgen.gen_matrix(rng, C, **features("fibex", k))
+        db = gen("fibex", k)
         data = writer("fibex", db)
         if data is None:
             continue
@@ -1143,9 +1177,9 @@ def run(chk):
                 chk.violation("fibex-frame-missing", "no FRAME-TRIGGERING/FRAME for the frame", dict(frame=fr.name))
                 continue
             if a["id"] != fr.arbitration_id.id:
-                chk.violation("fibex-id", "IDENTIFIER-VALUE differs", dict(frame=fr.name), fr.arbitration_id.id, a["id"])
+                chk.violation(K(fr, "fibex-id"), "IDENTIFIER-VALUE differs", dict(frame=fr.name), fr.arbitration_id.id, a["id"])
             if a["ext"] != bool(fr.arbitration_id.extended):
-                chk.violation("fibex-extended-flag", "IDENTIFIER-VALUE does not say whether the identifier has 29 bits (EXTENDED-ADDRESSING)",
+                chk.violation(K(fr, "fibex-extended-flag"), "IDENTIFIER-VALUE does not say whether the identifier has 29 bits (EXTENDED-ADDRESSING)",
                               dict(frame=fr.name, id=hex(fr.arbitration_id.id), length=fr.size), bool(fr.arbitration_id.extended), a["ext"])
             if a["length"] != fr.size or a["pdu_length"] != fr.size:
                 chk.violation("fibex-length", "BYTE-LENGTH differs", dict(frame=fr.name), fr.size, (a["length"], a["pdu_length"]))
@@ -1226,7 +1260,7 @@ def run(chk):
         n_here = N if oi < 3 else max(N // 6, 10)
         for k in range(n_here):
             tie_on[0] = k < TIE_N
-            db = matgen.gen_matrix(rng, C, **features("csv", k))
+            db = gen("csv", k)
             kw = dict(delimiter=delim)
             if opt is not None:
                 kw["xlsMotorolaBitFormat"] = opt
@@ -1246,9 +1280,9 @@ def run(chk):
                         chk.violation("csv-frame-missing", "frame has no rows", dict(frame=fr.name))
                     continue
                 if a["id"] != fr.arbitration_id.id:
-                    chk.violation("csv-id", "ID cell differs", dict(frame=fr.name), fr.arbitration_id.id, a["id"])
+                    chk.violation(K(fr, "csv-id"), "ID cell differs", dict(frame=fr.name), fr.arbitration_id.id, a["id"])
                 if a["ext"] != bool(fr.arbitration_id.extended):
-                    chk.violation("csv-extended-flag", "ID cell extended marker differs", dict(frame=fr.name), bool(fr.arbitration_id.extended), a["ext"])
+                    chk.violation(K(fr, "csv-extended-flag"), "ID cell extended marker differs", dict(frame=fr.name), bool(fr.arbitration_id.extended), a["ext"])
                 mux = fr.get_multiplexer if fr.is_multiplexed else None
                 for extra in set(a["signals"]) - {s.name for s in fr.signals}:
                     chk.violation("csv-signal-extra", "row without a signal", dict(frame=fr.name, signal=extra))
@@ -1289,7 +1323,7 @@ def run(chk):
     # ============================================================ canard
     for k in range(N):
         tie_on[0] = k < TIE_N
-        db = matgen.gen_matrix(rng, C, **features("canard", k))
+        db = gen("canard", k)
         # two of three matrices: exported under a complete option vector (CANard has one fixed convention, whatever the other options say)
         copts = option_vector() if k % 3 else {}
         under = "-under-options" if copts else ""
@@ -1309,7 +1343,7 @@ def run(chk):
                 chk.violation("canard-frame-missing", "no message for the frame", dict(frame=fr.name))
                 continue
             if a["id"] != fr.arbitration_id.id:
-                chk.violation("canard-id", "id differs", dict(frame=fr.name), fr.arbitration_id.id, a["id"])
+                chk.violation(K(fr, "canard-id"), "id differs", dict(frame=fr.name), fr.arbitration_id.id, a["id"])
             lsb = {}
             for s in fr.signals:
                 lsb.setdefault(flip(spec_msf(s)[-1]), []).append(s.name)
